@@ -19,9 +19,12 @@ import (
 
 const MiB = 1 << 20
 
-var limits = []int64{0, 1 * MiB, 64 * MiB, 300 * MiB}
+// (two limits are smaller than one relay buffer of 32 KiB, one of them smaller than a 4 KiB bufio buffer)
+var limits = []int64{0, 1 * MiB, 64 * MiB, 300 * MiB, 16 * 1024, 3000}
 
-const size = 12 * MiB
+// transfer size per connection: well above the burst; with a limit below 1 MiB/s it is burst + 256 KiB so that
+// the virtual duration stays below the proxy's own one-hour idle limit
+const bigSize = 12 * MiB
 
 func burstOf(limit int64) int64 {
 	b := limit / 64
@@ -102,6 +105,16 @@ func scenario(x *explore.X) {
 		c, _ := w.Client()
 		clients = append(clients, c)
 	}
+	size := bigSize
+	horizon := 10 * time.Minute
+	for _, l := range []int64{r, wl} {
+		if l != 0 && l < MiB {
+			size = 4*MiB + 256*1024
+			if h := 10*time.Minute + 2*time.Duration(float64(int64(nconn)*int64(size))/float64(l)*float64(time.Second)); h > horizon {
+				horizon = h
+			}
+		}
+	}
 	down := h1x.Pattern(size, 3)
 	up := h1x.Pattern(size, 8)
 	what := fmt.Sprintf("read-limit=%d write-limit=%d %s x%d", r, wl, kind, nconn)
@@ -110,13 +123,12 @@ func scenario(x *explore.X) {
 		if limit == 0 {
 			return time.Second
 		}
-		d := time.Duration(float64(size*int64(nconn)) / float64(limit) * float64(time.Second) / 64)
+		d := time.Duration(float64(int64(size)*int64(nconn)) / float64(limit) * float64(time.Second) / 64)
 		if d < time.Millisecond {
 			d = time.Millisecond
 		}
 		return d
 	}
-	horizon := 10 * time.Minute
 	switch kind {
 	case "download":
 		for _, c := range clients {
@@ -200,7 +212,7 @@ func scenario(x *explore.X) {
 			}
 			return n
 		}
-		trd := trace(totalDown, int64(nconn)*size, stepFor(r), horizon)
+		trd := trace(totalDown, int64(nconn)*int64(size), stepFor(r), horizon)
 		checkBound(x, what+" [tunnel bytes received by clients]", trd, r, nconn)
 		before := func() int64 {
 			var n int64
@@ -219,7 +231,7 @@ func scenario(x *explore.X) {
 			}
 			return n - before
 		}
-		tru := trace(totalUp, int64(nconn)*size, stepFor(wl), horizon)
+		tru := trace(totalUp, int64(nconn)*int64(size), stepFor(wl), horizon)
 		// the read limiter was drained by the download phase only if the limits are shared per direction: they are not
 		checkBound(x, what+" [tunnel bytes accepted from clients]", tru, wl, nconn)
 		for i := range clients {
@@ -247,7 +259,7 @@ func scenario(x *explore.X) {
 
 func TestC20(t *testing.T) {
 	s := explore.NewSuite(t, "C20", "model_checking",
-		"(read-limit, write-limit) in {0, 1 MiB/s, 64 MiB/s, 300 MiB/s}^2 x transfer {download, upload, CONNECT tunnel both ways} of 12 MiB per connection x {1,2,3} connections sharing the listener [full product]; on the virtual clock the receiving side's (time, cumulative bytes) is sampled 64+ times per transfer (states = samples) and the token-bucket bound bytes <= burst + rate x dt + one 64 KiB write per connection is checked between EVERY pair of samples, plus minimum duration, zero virtual time for an unlimited direction, and byte-for-byte identity of the data")
+		"(read-limit, write-limit) in {0, 1 MiB/s, 64 MiB/s, 300 MiB/s, 16 KiB/s, 3000 B/s}^2 (the last two are smaller than one relay buffer / one bufio buffer) x transfer {download, upload, CONNECT tunnel both ways} of 12 MiB per connection (burst + 256 KiB with a limit below 1 MiB/s) x {1,2,3} connections sharing the listener [full product]; on the virtual clock the receiving side's (time, cumulative bytes) is sampled 64+ times per transfer (states = samples) and the token-bucket bound bytes <= burst + rate x dt + one 64 KiB write per connection is checked between EVERY pair of samples, plus minimum duration, zero virtual time for an unlimited direction, and byte-for-byte identity of the data")
 	s.Assume = []string{"virtual clock of testing/synctest drives golang.org/x/time/rate", "documented slack: the limiter is charged after each write, so one write (<= 64 KiB) per connection may exceed the bucket", "simnet receive buffers are unbounded, so the only throttle is the limiter under test"}
 	s.Add(explore.Scenario{Name: "limits", Remote: true, Run: func(x *explore.X) { world.Run(t, x, func() { scenario(x) }) }})
 	s.Main()
